@@ -98,31 +98,46 @@ def rule_a(ctx, out):
                 out.ok({"wrapper": f.name, "passes": passed})
             else:
                 out.bad(f"wrapper-argument-order:{f.name}", f"{f.name}{tuple(f.params)} passes {passed}: arguments reordered or dropped", where(f))
-    # renderer
+    # renderer: abstract evaluation of translate_formula on one representative per kind of formula (and nestings of them)
     tf = ctx.func("smt_encoding.solver.solver_from_executable.translate_formula")
-    types_tested = {x.id for n in own_nodes(tf.node) if isinstance(n, ast.Compare) for x in ast.walk(n) if isinstance(x, ast.Name)}
-    for t in ("int", "bool", "ExpressionReference"):
-        if t in types_tested:
-            out.ok({"renderer_branch": t})
+
+    def render(x):
+        ev = Evaluator(tf.node, globals_env={"ExpressionReference": FakeRef}, obj_types=(FakeRef, FakeConn, FakeFunc), max_steps=50000,
+                       call_hook=lambda name, a, k: render(*a) if name == "translate_formula" else (_ for _ in ()).throw(Unsupported(name)))
+        return ev.call(x)
+
+    def expected(x):
+        if isinstance(x, bool):
+            return ["true"] if x else ["false"]
+        if isinstance(x, int):
+            return [str(x)]
+        if isinstance(x, FakeRef):
+            if not x.arguments:
+                return [x.func.name]
+            return ["(", x.func.name] + [t for a in x.arguments for t in expected(a)] + [")"]
+        return ["(", x.connector_name] + [t for a in x.arguments for t in expected(a)] + [")"]
+
+    def toks(txt):
+        return txt.replace("(", " ( ").replace(")", " ) ").split()
+    xr, yr = FakeRef(FakeFunc("x")), FakeRef(FakeFunc("y_1"))
+    cases = [("bool-literal-true", True), ("bool-literal-false", False), ("int-literal-0", 0), ("int-literal-1", 1), ("int-literal", 7),
+             ("constant", xr), ("application", FakeRef(FakeFunc("f"), xr, 1)), ("application-with-bool", FakeRef(FakeFunc("g"), True, yr, 0)),
+             ("connector", FakeConn("and", True, xr, yr)), ("connector-with-literals", FakeConn("or", True, xr, True, False)),
+             ("connector-with-int", FakeConn("<", False, xr, 1)), ("nested-connector", FakeConn("not", False, FakeConn("=", True, xr, 0))),
+             ("connector-over-application", FakeConn("=>", False, FakeRef(FakeFunc("f"), xr, 1), FakeConn("<=", False, 0, yr)))]
+    for label, frm in cases:
+        try:
+            got = render(frm)
+        except Raised as e:
+            out.bad(f"renderer-raises:{label}", f"translate_formula raises {e.what} on a formula of kind {label} ({frm!r})", where(tf))
+            continue
+        except Unsupported as e:
+            raise AnalysisError(f"translate_formula: cannot evaluate abstractly on {frm!r}: {e}")
+        if isinstance(got, str) and toks(got) == expected(frm):
+            out.ok({"renderer": label, "formula": repr(frm), "text": got})
         else:
-            out.bad(f"renderer-missing-branch:{t}", f"translate_formula has no branch for {t}", where(tf))
-    fstrings = [n for n in own_nodes(tf.node) if isinstance(n, ast.JoinedStr)]
-    conn = [n for n in fstrings if any(isinstance(v, ast.FormattedValue) and norm(v.value).endswith(".connector_name") for v in n.values)]
-    if conn and all(isinstance(n.values[0], ast.Constant) and n.values[0].value == "(" and isinstance(n.values[1], ast.FormattedValue)
-                    and isinstance(n.values[-1], ast.Constant) and n.values[-1].value.endswith(")") for n in conn):
-        rec = all(any(call_name(c) == "translate_formula" for c in calls_in(n)) for n in conn)
-        if rec:
-            out.ok({"renderer": "(<connector_name> <translated arguments>)"})
-        else:
-            out.bad("renderer-arguments-not-translated", "connector arguments are not rendered recursively", where(tf))
-    else:
-        out.bad("renderer-connector-name-not-verbatim", "translate_formula does not print `(connector_name args)`", where(tf))
-    # booleans rendered as true/false
-    lits = {n.value for n in own_nodes(tf.node) if isinstance(n, ast.Constant) and isinstance(n.value, str)}
-    if {"true", "false"} <= lits:
-        out.ok({"renderer": "bool -> true/false"})
-    else:
-        out.bad("renderer-bool-literals", "booleans are not rendered as true/false", where(tf))
+            out.bad(f"renderer:{label}", f"translate_formula({frm!r}) = {got!r}; SMT-LIB text of that formula is `{' '.join(expected(frm))}`", where(tf),
+                    {"formula": repr(frm), "rendered": repr(got)})
 
 
 def rule_b(ctx, out):
@@ -255,6 +270,28 @@ class FakeConn:
 
     def __repr__(self):
         return f"{self.connector_name}({', '.join(map(repr, self.arguments))})"
+
+
+class FakeFunc:
+    def __init__(self, name):
+        self.name = name
+
+    def __str__(self):
+        return self.name
+
+    __repr__ = __str__
+
+
+class FakeRef:
+    """Stand-in for ExpressionReference: func, arguments, and the class's own __str__ (name, or name and arguments)."""
+    def __init__(self, func, *args):
+        self.func = func
+        self.arguments = list(args)
+
+    def __str__(self):
+        return str(self.func) if not self.arguments else f"{self.func} {' '.join(str(a) for a in self.arguments)}"
+
+    __repr__ = __str__
 
 
 class Atom:
